@@ -1,8 +1,8 @@
 //! Tables `factory` (C06) and `pnmsg` (C09); conventions as in pure.rs.
 use crate::alloc::guarded;
-use crate::exec::build_pn;
+use crate::basics::build_pn;
 use crate::pure::*;
-use crate::sut::{cc14_report, pn_report};
+use crate::basics::{cc14_report, pn_report};
 use helgoboss_midi::*;
 use std::convert::TryFrom;
 
@@ -216,6 +216,24 @@ pub fn table_factory(dir: &str, tier: &str, seed: u64, per: usize) -> (usize, u6
         for ctor in [7, 11, 12, 13, 14, 15, 16, 17, 18] {
             w.push(&factory_row(ctor, imp, [0, 0, 0, 0]));
         }
+        // thorough: the generic constructors with EVERY pair of data bytes
+        if full {
+            for &t in TYPES.iter() {
+                let chans: Vec<i64> = if t < 240 { vec![0, 9, 15, r.below(16) as i64] } else { vec![0] };
+                for &ch in &chans {
+                    for a in 0..128 {
+                        for b in 0..128 {
+                            w.push(&factory_row(20, imp, [t, ch, a, b]));
+                        }
+                    }
+                }
+                for a in 0..128 {
+                    for b in 0..128 {
+                        w.push(&factory_row(21, imp, [t, a, b, 0]));
+                    }
+                }
+            }
+        }
         // the three generic constructors x all 23 types
         for &t in TYPES.iter() {
             for ch in 0..16 {
@@ -281,9 +299,15 @@ pub fn table_factory(dir: &str, tier: &str, seed: u64, per: usize) -> (usize, u6
         w.push(&factory_row(52, 0, [v, 0, 0, 0]));
     }
     for k in 0..7 {
-        w.push(&factory_row(38, 0, [k, 9, 0, 0]));
+        for a in 0..16 {
+            w.push(&factory_row(38, 0, [k, a, 0, 0]));
+        }
     }
-    w.push(&factory_row(38, 0, [7, 1, 3, 0]));
+    for a in 0..2 {
+        for t in 0..4 {
+            w.push(&factory_row(38, 0, [7, a, t, 0]));
+        }
+    }
     for ctor in [37, 41, 42, 43, 44, 45, 46, 47, 48] {
         w.push(&factory_row(ctor, 0, [0, 0, 0, 0]));
     }
